@@ -233,11 +233,11 @@ Definition mesh_of_data (v : val) : option mesh :=
   | _ => None
   end.
 
-(* `decompress(binary).unwrap()` panics on a malformed stream; a bincode failure returns the
-   empty mesh; trailing bytes after the MeshData are ignored (`bincode::deserialize`). *)
+(* a stream that does not decompress (since the repair 1d88107; it used to panic on `unwrap`) and a
+   bincode failure both return the empty mesh; trailing bytes after the MeshData are ignored (`bincode::deserialize`). *)
 Definition bin_to_mesh (bs : bytes) : outcome mesh :=
   match decompress bs with
-  | inl _ => Panic
+  | inl _ => Ok (empty_mesh mesh_fallback_topology)
   | inr raw =>
     match dec MeshData_ty raw with
     | None => Ok (empty_mesh mesh_fallback_topology)
@@ -256,7 +256,7 @@ Definition mesh_to_bin_fast (m : mesh) : option bytes :=
 
 Definition bin_to_mesh_fast (bs : bytes) : outcome mesh :=
   match decompress bs with
-  | inl _ => Panic
+  | inl _ => Ok (empty_mesh mesh_fallback_topology)
   | inr raw =>
     match dec_fast MeshData_ty raw with
     | None => Ok (empty_mesh mesh_fallback_topology)
